@@ -3,6 +3,7 @@ import Driver.Cg
 import Driver.Enc
 import Driver.Handlers
 import Driver.Mapper
+import Driver.Watch
 
 open Driver
 
@@ -13,6 +14,8 @@ def dispatch (comp : String) (toks : List String) : String :=
   else if comp == "hcheck" then handleHCheck toks
   else if comp == "hfuzz" then handleHFuzz toks
   else if comp == "mapper" then handleMapper toks
+  else if comp == "watch" then handleWatch toks
+  else if comp == "conc" then handleConc toks
   else "bad-op"
 
 partial def loop (h : IO.FS.Stream) (out : IO.FS.Stream) : IO Unit := do
